@@ -287,6 +287,22 @@ PROPS["C13"] = dict(
     thorough=dict(shards=16, checks=20, shrink_s=1, timeout_s=7200, env=dict(VERIF_SHRINK_S=60), require_labels=["win:wal-rotation", "win:flush", "small-program", "large-program-over-4MiB-of-log", "lost-suffix-of-acknowledged-writes"]),
 )
 
+PROPS["C10"] = dict(
+    pkg="props/c10", level="fault_enumeration", engine="E-crash", design_ref="§4 C10", aux_builds=RUNNER_AUX,
+    technique="nested crash-image enumeration: PBT-generated workloads (rapid) under strace give starting images; a traced recovery of each gives depth-2 (and sampled depth-3) images; all must recover to the uninterrupted outcome",
+    rule=("evaluation = one nested crash image: a generated workload (as C02/C13, sync or async WAL) is traced; among its distinct crash images those in which recovery has work to do (WAL records, >=2 WAL files, a compaction directory "
+          "with or without success flag) are picked (4 per case, thorough 12); for each, `runner recover` (Open+Close) is traced starting from that image and EVERY boundary inside Open is materialised, plus, for every run of "
+          "sibling unlinks issued by one os.RemoveAll, every proper subset of the run removed (all directory listing orders); sampled nested images are crashed a third time; oracle: the next Open succeeds (twice, same content) "
+          "and yields exactly the key->value state of the uninterrupted recovery of the starting image; runs on tmpfs and on the disk file system; all nested images are non-trivial (each lies strictly inside Open); "
+          "distinct = (case hash, starting boundary, depth, nested boundary / removed subset)"),
+    level_text="Exhaustive enumeration of the kill points inside each traced recovery (depth 2), sampled depth 3, all listing orders of data-independent unlink runs; starting images are sampled.",
+    level_note="starting images whose uninterrupted recovery already fails are judged by C02/C13 and skipped here (counted as a label)",
+    assumptions=CRASH_ASSUME + ["every permutation of the unlinks one os.RemoveAll issues inside a directory is a feasible execution on some file system"],
+    require_labels=["nested-depth2:replay-flush", "nested-depth2:wal-removal", "nested-depth2:repair-compactions", "nested-depth3:replay-flush", "nested:unlink-order-permutation"],
+    quick=dict(shards=16, checks=1, shrink_s=1, env=dict(VERIF_SHRINK_S=30)),
+    thorough=dict(shards=16, checks=12, shrink_s=1, timeout_s=7200, env=dict(VERIF_SHRINK_S=90)),
+)
+
 NOT_APPLICABLE = {}
 
 
